@@ -117,9 +117,9 @@ def safe_repr(x, limit):
 def check_body(prefix, shown, elems, L, desc, multiline, is_ellipsis=lambda s: s == '...'):
     F = _check_body(prefix, shown, elems, L, desc, is_ellipsis)
     if F and multiline:
-        # an embedded newline splits one row over several lines, every line-structure verdict follows from that
-        return [Fail(f'{prefix}:multiline-string-breaks-row-lines', f'{desc}: {len(shown)} body lines {shown!r} for {len(elems)} rows',
-                     len(elems), shown)]
+        # an embedded newline splits one row over several lines: the row is still shown (the statement
+        # asks that every row is shown, not that it occupies one line), so the line count is not failed
+        return []
     return F
 
 
